@@ -12,7 +12,7 @@ from fractions import Fraction
 import z3
 
 from . import smt
-from .smt import INF, rv, SQ_F, SQRT_F, EXP_F
+from .smt import INF, rv, SQ_F, SQRT_F, EXP_F, DIV_F
 
 
 class Inconclusive(BaseException):
@@ -100,6 +100,18 @@ def sqrt_term(t):
     return r
 
 
+def div_term(a, b):
+    """a / b : exact for a numeral divisor, otherwise the uninterpreted DIV(a, b) (lemmas in smt.uf_lemmas)"""
+    if z3.is_rational_value(b) or z3.is_int_value(b):
+        f = smt.frac_of(b)
+        if f == 0:
+            raise ZeroDivisionError('division by zero')
+        return a * rv(1 / f)
+    if Mode.square == 'exact':
+        return a / b
+    return DIV_F(a, b)
+
+
 def exp_term(t):
     if (z3.is_rational_value(t) or z3.is_int_value(t)) and smt.frac_of(t) == 0:
         return rv(1)
@@ -139,7 +151,7 @@ class SBool:
 
 class SReal:
     __slots__ = ('t',)
-    __array_priority__ = 1000
+    # (no __array_priority__: ndarray op proxy must be handled elementwise by NumPy)
 
     def __init__(self, t):
         self.t = t
@@ -206,7 +218,7 @@ class SReal:
             return NotImplemented
         if k[0] == 'inf':
             return 0.0
-        return SReal(self.t / k[1])
+        return SReal(div_term(self.t, k[1]))
 
     def __rtruediv__(self, o):
         k = self._other(o)
@@ -214,7 +226,7 @@ class SReal:
             return NotImplemented
         if k[0] == 'inf':
             raise NotImplementedError('inf / symbolic')
-        return SReal(k[1] / self.t)
+        return SReal(div_term(k[1], self.t))
 
     def __neg__(self):
         return SReal(-self.t)
